@@ -8,44 +8,184 @@ variable {σ : Type} [DecidableEq σ]
 
 theorem mem_succs (A : ENFA σ) (q r : σ) (a : Option Nat) :
     r ∈ A.succs q a ↔ (q, a, r) ∈ A.delta := by
-  sorry
+  unfold succs
+  simp only [List.mem_filterMap]
+  constructor
+  · rintro ⟨⟨x, b, y⟩, ht, h⟩
+    split at h
+    · rename_i hc
+      simp only at hc
+      obtain ⟨rfl, rfl⟩ := hc
+      simp only [Option.some.injEq] at h
+      subst h
+      exact ht
+    · cases h
+  · intro h
+    exact ⟨(q, a, r), h, by simp⟩
 
 /-- the fuel used by `eclose` is always enough -/
 theorem eclose_isSome (A : ENFA σ) (q : σ) :
     (bfs (fun x => A.succs x none) (A.delta.length + 1) [q]).isSome := by
-  sorry
+  unfold bfs
+  have hq : ([q] : List σ).eraseDups = [q] := by
+    simp [List.eraseDups_cons]
+  rw [hq]
+  apply bfsK_isSome id (fun x => A.succs x none) (q :: A.delta.map (·.2.2))
+  · intro x y hy
+    have := (mem_succs A x y none).mp hy
+    exact List.mem_cons_of_mem _ (List.mem_map.mpr ⟨_, this, rfl⟩)
+  · simp
+  · intro z hz
+    simp only [List.mem_singleton] at hz
+    subst hz
+    exact List.mem_cons_self
+  · simp only [List.length_cons, List.length_map, List.length_nil]; omega
 
+set_option linter.unusedSectionVars false in
 theorem Run.append {A : ENFA σ} {q r s : σ} {u v : List Nat}
     (h₁ : A.Run q u r) (h₂ : A.Run r v s) : A.Run q (u ++ v) s := by
-  sorry
+  induction h₁ with
+  | nil => exact h₂
+  | eps he _ ih => exact Run.eps he (ih h₂)
+  | step he _ ih => exact Run.step he (ih h₂)
+
+/-- `Reach` over ε-successors is the same thing as an ε-run -/
+theorem reach_eps_iff (A : ENFA σ) (q r : σ) :
+    Reach (fun x => A.succs x none) q r ↔ A.Run q [] r := by
+  constructor
+  · intro h
+    induction h with
+    | refl => exact Run.nil q
+    | tail _ hz ih =>
+      have := Run.append ih (Run.eps ((mem_succs A _ _ none).mp hz) (Run.nil _))
+      simpa using this
+  · intro h
+    generalize hw : ([] : List Nat) = w at h
+    induction h with
+    | nil => exact Reach.refl _
+    | eps he _ ih => exact Reach.head ((mem_succs A _ _ none).mpr he) (ih hw)
+    | step _ _ _ => cases hw
 
 theorem mem_eclose_iff (A : ENFA σ) (q r : σ) : r ∈ A.eclose q ↔ A.EpsReach q r := by
-  sorry
+  unfold eclose EpsReach
+  have hs := eclose_isSome A q
+  obtain ⟨res, hres⟩ := Option.isSome_iff_exists.mp hs
+  rw [hres, Option.getD_some, mem_bfs_iff _ _ _ _ hres, ← reach_eps_iff]
+  simp
 
 theorem mem_ecloseL_iff (A : ENFA σ) (S : List σ) (r : σ) :
     r ∈ A.ecloseL S ↔ ∃ q ∈ S, A.EpsReach q r := by
-  sorry
+  unfold ecloseL
+  simp only [List.mem_eraseDups, List.mem_flatMap, mem_eclose_iff]
 
 theorem mem_nextL_iff (A : ENFA σ) (S : List σ) (a : Option Nat) (r : σ) :
     r ∈ A.nextL S a ↔ ∃ q ∈ S, (q, a, r) ∈ A.delta := by
-  sorry
+  unfold nextL
+  simp only [List.mem_eraseDups, List.mem_flatMap, mem_succs]
 
+set_option linter.unusedSectionVars false in
 /-- a run on `a :: w` = ε-moves, one `a`-edge, then a run on `w` -/
 theorem run_cons_iff (A : ENFA σ) (q s : σ) (a : Nat) (w : List Nat) :
     A.Run q (a :: w) s ↔ ∃ p r, A.EpsReach q p ∧ (p, some a, r) ∈ A.delta ∧ A.Run r w s := by
-  sorry
+  constructor
+  · intro h
+    generalize hv : a :: w = v at h
+    induction h with
+    | nil => cases hv
+    | eps he _ ih =>
+      obtain ⟨p, r, h1, h2, h3⟩ := ih hv
+      exact ⟨p, r, Run.eps he h1, h2, h3⟩
+    | step he hr _ =>
+      cases hv
+      exact ⟨_, _, Run.nil _, he, hr⟩
+  · rintro ⟨p, r, h1, h2, h3⟩
+    have := Run.append h1 (Run.step h2 h3)
+    simpa using this
 
 /-- set-based evaluation of a word (what `accepts` iterates) -/
 def evalE (A : ENFA σ) (S : List σ) (w : List Nat) : List σ :=
   w.foldl (fun cur a => A.ecloseL (A.nextL cur (some a))) S
 
+theorem evalE_nil (A : ENFA σ) (S : List σ) : A.evalE S [] = S := rfl
+
+theorem evalE_cons (A : ENFA σ) (S : List σ) (a : Nat) (w : List Nat) :
+    A.evalE S (a :: w) = A.evalE (A.ecloseL (A.nextL S (some a))) w := rfl
+
+theorem evalE_append (A : ENFA σ) (S : List σ) (u v : List Nat) :
+    A.evalE S (u ++ v) = A.evalE (A.evalE S u) v := by
+  unfold evalE; rw [List.foldl_append]
+
 theorem mem_evalE_iff (A : ENFA σ) (S0 : List σ) (w : List Nat) (r : σ) :
     r ∈ A.evalE (A.ecloseL S0) w ↔ ∃ q ∈ S0, A.Run q w r := by
-  sorry
+  induction w generalizing S0 with
+  | nil => rw [evalE_nil, mem_ecloseL_iff]; rfl
+  | cons a w ih =>
+    rw [evalE_cons, ih]
+    constructor
+    · rintro ⟨q', hq', hrun⟩
+      obtain ⟨p, hp, he⟩ := (mem_nextL_iff A _ _ _).mp hq'
+      obtain ⟨q, hq, hqp⟩ := (mem_ecloseL_iff A _ _).mp hp
+      exact ⟨q, hq, (run_cons_iff A q r a w).mpr ⟨p, q', hqp, he, hrun⟩⟩
+    · rintro ⟨q, hq, hrun⟩
+      obtain ⟨p, q', hqp, he, hr⟩ := (run_cons_iff A q r a w).mp hrun
+      exact ⟨q', (mem_nextL_iff A _ _ _).mpr ⟨p, (mem_ecloseL_iff A _ _).mpr ⟨q, hq, hqp⟩, he⟩, hr⟩
 
 theorem lang_iff_evalE (A : ENFA σ) (w : List Nat) :
     A.Lang w ↔ ∃ f ∈ A.finals, f ∈ A.evalE (A.ecloseL A.starts) w := by
-  sorry
+  unfold Lang
+  constructor
+  · rintro ⟨s, hs, f, hf, hr⟩
+    exact ⟨f, hf, (mem_evalE_iff A _ _ _).mpr ⟨s, hs, hr⟩⟩
+  · rintro ⟨f, hf, hm⟩
+    obtain ⟨s, hs, hr⟩ := (mem_evalE_iff A _ _ _).mp hm
+    exact ⟨s, hs, f, hf, hr⟩
+
+/-- the fold of `acceptsE` is `evalE` on the word with its ε symbols dropped -/
+theorem acceptsE_foldl (A : ENFA σ) (S : List σ) (w : List (Option Nat)) :
+    w.foldl (fun cur a => match a with
+      | none => cur
+      | some _ => A.ecloseL (A.nextL cur a)) S = A.evalE S (w.filterMap id) := by
+  induction w generalizing S with
+  | nil => rfl
+  | cons a w ih =>
+    cases a with
+    | none => simpa using ih S
+    | some a =>
+      rw [List.foldl_cons, ih]
+      simp [evalE_cons]
+
+/-- `acceptsE` decides the run-based language (ε symbols inside the word are skipped) -/
+theorem acceptsE_iff_lang (A : ENFA σ) (w : List (Option Nat)) :
+    A.acceptsE w = true ↔ A.Lang (w.filterMap id) := by
+  have h : A.acceptsE w = (A.evalE (A.ecloseL A.starts) (w.filterMap id)).any (· ∈ A.finals) := by
+    unfold acceptsE
+    exact congrArg (fun l => l.any (· ∈ A.finals)) (acceptsE_foldl A _ w)
+  rw [h]
+  simp only [List.any_eq_true, decide_eq_true_eq, lang_iff_evalE]
+  constructor
+  · rintro ⟨f, h1, h2⟩; exact ⟨f, h2, h1⟩
+  · rintro ⟨f, h1, h2⟩; exact ⟨f, h2, h1⟩
+
+omit [DecidableEq σ] in
+/-- in an ε-free automaton an ε-run does not move -/
+theorem EpsFree.run_nil_iff {A : ENFA σ} (h : A.EpsFree) (q r : σ) : A.Run q [] r ↔ q = r := by
+  constructor
+  · intro hr
+    cases hr with
+    | nil => rfl
+    | eps he _ => exact absurd rfl (h _ he)
+  · rintro rfl; exact Run.nil _
+
+omit [DecidableEq σ] in
+/-- in an ε-free automaton a run on `a :: w` starts with an `a`-edge -/
+theorem EpsFree.run_cons_iff {A : ENFA σ} (h : A.EpsFree) (q s : σ) (a : Nat) (w : List Nat) :
+    A.Run q (a :: w) s ↔ ∃ r, (q, some a, r) ∈ A.delta ∧ A.Run r w s := by
+  constructor
+  · intro hr
+    cases hr with
+    | eps he _ => exact absurd rfl (h _ he)
+    | step he hr => exact ⟨_, he, hr⟩
+  · rintro ⟨r, he, hr⟩; exact Run.step he hr
 
 end ENFA
 end Pfl
